@@ -121,7 +121,9 @@ impl XmlWorld {
                         _ => format!("<a {}>", (0..n / 4).map(|i| format!("a{}='1' ", i)).collect::<String>()),
                     };
                 }
-                if rng.chance(1, 2) {
+                if rng.chance(1, 10) {
+                    XPipeline::RcDom
+                } else if rng.chance(1, 2) {
                     XPipeline::Tree
                 } else {
                     XPipeline::Tok { policy: if rng.chance(1, 2) { 0 } else { rng.next_u64() | 1 } }
@@ -152,6 +154,10 @@ impl XmlWorld {
                 let o = run_xml(case, false);
                 *digest = o.digest;
                 add_stats(stats, &o);
+                if o.is_driver {
+                    stats.inc("xml_runs_through_driver_with_RcDom_and_drop");
+                    return Ok(());
+                }
                 if o.stats.livelock != 0 {
                     return Err(Violation::new("feed-livelock", format!("feed() was resumed {} times without finishing the delivered input", o.stats.feeds)));
                 }
